@@ -21,7 +21,7 @@ extern jmp_buf shim_jb;
 extern volatile int shim_armed;        /* abort()/assert inside the library longjmp to shim_jb when set */
 extern volatile int shim_aborted;      /* 1 = abort(), 2 = assertion failure */
 extern char shim_assert_msg[256];
-extern int shim_in_lib;                /* >0: allocation calls are the library's */
+extern volatile int shim_in_lib;                /* >0: allocation calls are the library's */
 
 extern shim_blk shim_blks[SHIM_MAXBLK];
 extern int shim_nblk;
